@@ -240,9 +240,12 @@ Inductive prim : Type -> Type :=
 | PSetScTls : prim unit                        (* c.tls = true *)
 | PSetConnected : prim unit.                   (* isConnected = true (NewClient) *)
 
+(* Close of the transport; a second Close of a *tls.Conn returns net.ErrClosed without reaching the underlying
+   connection (crypto/tls keeps its own closed flag) *)
 Definition do_close (w : world) : world :=
   let c := w_conn w in
-  ev EClose (with_conn w (mkConn (opened c) false (ctls c) (armed c) (hung c))).
+  if ctls c && negb (copen c) then w
+  else ev EClose (with_conn w (mkConn (opened c) false (ctls c) (armed c) (hung c))).
 
 Definition run_prim {B : Type} (p : prim B) (w : world) : B * world :=
   match p in prim B return B * world with
@@ -541,7 +544,8 @@ Record config := mkCfg {
   c_nonoop   : bool;
   fx_close   : bool;              (* dial closes the client on every error return *)
   fx_quit    : bool;              (* CloseWithSMTPClient closes when QUIT fails *)
-  fx_arm     : bool               (* deadline set after the dial / before NOOP / before QUIT *)
+  fx_arm     : bool;              (* deadline set after the dial / before NOOP / before QUIT *)
+  fx_send    : bool               (* sendSingleMsg: RSET after a rejected DATA; close when such a RSET fails *)
 }.
 
 Definition is_localhost (h : bytes) : bool := existsb (bytes_eqb h) Gen.smtp_localhost_names.
@@ -718,18 +722,27 @@ Fixpoint rcpts (n : nat) (bad : bool) : prog bool :=
   | S m => r <- cmd 25 VRcpt ;; rcpts m (match r with Err _ => true | Ok _ => bad end)
   end.
 
+(* a failed RSET after a failed MAIL / RCPT / DATA: the connection is not reused (client.Close()) *)
+Definition abort_if_failed (cfg : config) (r : res unit) : prog unit :=
+  match r with
+  | Err _ => if fx_send cfg then prim1 PClientClose else Ret tt
+  | Ok _ => Ret tt
+  end.
+
 (* sendSingleMsg for a message with [n] recipients whose rendering succeeds *)
 Definition send_single (cfg : config) (n : nat) : prog (res unit) :=
   m <- cmd 250 VMail ;;
   match m with
-  | Err e => reset ;;; Ret (Err ESend)
+  | Err e => r <- reset ;; abort_if_failed cfg r ;;; Ret (Err ESend)
   | Ok _ =>
       bad <- rcpts n false ;;
-      if bad then reset ;;; Ret (Err ESend)
+      if bad then r <- reset ;; abort_if_failed cfg r ;;; Ret (Err ESend)
       else
         d <- cmd 354 VData ;;
         match d with
-        | Err _ => Ret (Err ESend)
+        | Err _ =>
+            if fx_send cfg then r <- reset ;; abort_if_failed cfg r ;;; Ret (Err ESend)
+            else Ret (Err ESend)
         | Ok _ =>
             (* WriteTo + dataCloser.Close: one flush of content and dot (its failure is ignored), then the reply is read *)
             prim1 (PWrite VEod) ;;;
@@ -819,6 +832,7 @@ Definition src_fx_close : bool := Gen.dial_error_returns_close.
 Definition src_fx_quit : bool := Gen.close_on_quit_failure.
 Definition src_fx_arm : bool :=
   Gen.dial_arms_before_greeting && Gen.checkconn_deadline_before_noop && Gen.close_updates_deadline.
+Definition src_fx_send : bool := Gen.send_aborts_on_failed_rset.
 
 (* outcome of a call in the sense of DESIGN 1.1: Hang when a read blocked for ever *)
 Inductive outcome (A : Type) := Returned (a : A) | Hang.
@@ -870,7 +884,7 @@ Definition run_case (k : kind) (cfg : config) (s : srv) (msgs : list nat) : list
 
 (* the configuration with the repairs as they are on the working tree *)
 Definition cfg_src (p : policy) (ssl : bool) (a : bytes) (custom : option auth_impl) (host : bytes) (nonoop : bool) : config :=
-  mkCfg p ssl a custom host nonoop src_fx_close src_fx_quit src_fx_arm.
+  mkCfg p ssl a custom host nonoop src_fx_close src_fx_quit src_fx_arm src_fx_send.
 
 Definition blocking (k : rkind) : bool := match k with KEof => false | _ => true end.
 
